@@ -510,6 +510,9 @@ REPEATS = [
     ("repeat.indirectbr-targets", "define void @f(i8* %p) {\ne:\n\tindirectbr i8* %p, [label %a, label %b, label %a, label %a]\n\na:\n\tret void\n\nb:\n\tret void\n}\n", None),
     ("repeat.phi-preds", "define i32 @f(i32 %x, i32 %y) {\ne:\n\tbr label %n\n\nn:\n\t%p = phi i32 [ %x, %e ], [ %y, %e ], [ %x, %n ], [ %p, %e ]\n\tbr label %n\n}\n", None),
     ("repeat.operand-bundles", "declare void @g()\n\ndefine void @f(i32 %x) {\n\tcall void @g() [ \"t\"(i32 %x), \"u\"(), \"t\"(i32 1), \"t\"(i32 %x) ]\n\tret void\n}\n", None),
+    ("landingpad.cleanup-and-clauses", "define void @f() personality i8* null {\n\t%lp = landingpad { i8*, i32 }\n\t\tcleanup\n\t\tcatch i8* null\n\t\tfilter [0 x i8*] zeroinitializer\n\tret void\n}\n",
+     ["\t\tcleanup\n\t\tcatch i8* null\n\t\tfilter [0 x i8*] zeroinitializer"]),
+    ("landingpad.cleanup-and-catch", "define void @f() personality i8* null {\n\t%lp = landingpad { i8*, i32 }\n\t\tcleanup\n\t\tcatch i8* null\n\tret void\n}\n", ["\t\tcleanup\n\t\tcatch i8* null"]),
     ("repeat.landingpad-clauses", "define void @f() personality i8* null {\n\t%lp = landingpad { i8*, i32 }\n\t\tcatch i8* null\n\t\tcatch i8* null\n\t\tfilter [0 x i8*] zeroinitializer\n\t\tcatch i8* null\n\tret void\n}\n", None),
     ("repeat.uselistorder", "@g = global i32 0\n@p = global i32* @g\n@q = global i32* @g\n\nuselistorder i32* @g, { 1, 0 }\nuselistorder i32* @g, { 1, 0 }\n", None),
     ("repeat.comdat-users", "$c = comdat any\n\n@a = global i32 0, comdat($c)\n@b = global i32 0, comdat($c)\n\ndefine void @f() comdat($c) {\n\tret void\n}\n", None),
@@ -590,6 +593,14 @@ def layout_entries():
         ("zext", "i8 %a", "%e = zext i8 %a to i64", "i64", "add i64 %e, " + I),
         ("sext", "i8 %a", "%e = sext i8 %a to i64", "i64", "add i64 %e, " + I),
         ("trunc", "i64 %a", "%e = trunc i64 %a to i8", "i8", "add i8 %e, 100"),
+        # i1 on one side: a constant built at the wrong one of the two types is SPELLED differently (`1` / `true`)
+        ("zext-i1", "i1 %a", "%e = zext i1 %a to i32", "i32", "add i32 %e, 1"),
+        ("sext-i1", "i1 %a", "%e = sext i1 %a to i32", "i1", "icmp ne i32 %e, 0"),
+        ("trunc-i1", "i64 %a", "%e = trunc i64 %a to i1", "i1", "xor i1 %e, true"),
+        ("uitofp-i1", "i1 %a", "%e = uitofp i1 %a to double", "double", "fadd double %e, 1.0"),
+        ("fptoui-i1", "double %a", "%e = fptoui double %a to i1", "i1", "and i1 %e, true"),
+        ("icmp-i1", "i64 %a", "%e = icmp eq i64 %a, 1", "i1", "or i1 %e, false"),
+        ("select-i1", "i1 %a", "%e = select i1 %a, i64 1, i64 0", "i64", "add i64 %e, 1"),
         ("ptrtoint", "i8* %a", "%e = ptrtoint i8* %a to i64", "i64", "add i64 %e, " + I),
         ("inttoptr", "i64 %a", "%e = inttoptr i64 %a to i8*", "i1", "icmp eq i8* %e, null"),
         ("bitcast", "i64 %a", "%e = bitcast i64 %a to double", "double", "fadd double %e, " + D),
